@@ -175,6 +175,8 @@ class CommandResponse(Response):
                 merge_key = resp.merge_key
             except TypeError:
                 self._untagged.append(resp)
+                if resp.renumbers:
+                    self._mergeable.clear()
             else:
                 key = (type(resp), merge_key)
                 try:
@@ -248,6 +250,14 @@ class UntaggedResponse(Response):
     @asynccontextmanager
     async def _noop_cm(cls) -> AsyncIterator[None]:
         yield
+
+    @property
+    def renumbers(self) -> bool:
+        """True if this response changes message sequence numbers, in which
+        case later responses must not be merged into earlier ones.
+
+        """
+        return False
 
     @property
     def merge_key(self) -> Hashable:
